@@ -25,7 +25,9 @@ ASSUMPTIONS = ['unencodable text and streams are outside the key domain',
                'the repair of C02-F2 Disk.put pickles it).  A NaN with another sign bit or payload (e.g. inf - inf on x86) has another pickle under '
                'pickle protocols >= 1 and is then a different key: outside the alphabet and the model',
                'bystander monitor: virtual clock (instr.Clock), entries stored at t=1000, operations at t=1050; the raw table is read through a '
-               'separate sqlite3 connection (columns store_time, expire_time, tag, size, mode, filename, value; access statistics excluded)']
+               'separate sqlite3 connection (columns store_time, expire_time, tag, size, mode, filename, value; access statistics excluded)',
+               'second handles (pickle round trip, copy, reopen, the pickled parent of a handed-out container): decided by the second_handles monitor only; the '
+               'model has one handle per directory.  A way of duplicating a handle that raises (copy.deepcopy of a FanoutCache) yields no handle and no claim']
 
 
 def alphabet(protocol):
@@ -625,6 +627,191 @@ def cross_process_identity(ctx, res, stats, thorough):
 
 
 # ---------------------------------------------------------------------------
+# the same key through ANOTHER HANDLE on the same directory (pickle round trip, copy, reopen, the parent's pickle for handed-out
+# containers): equality of keys decides which entry is addressed, whichever handle the key is given to
+
+HANDLE_HOWS = ['pickle:0', 'pickle:2', 'pickle:highest', 'pickle-twice', 'copy', 'deepcopy', 'reopen', 'parent-pickle']
+HANDLE_CONFIGS = [   # (container, shards, disk)
+    ('FanoutCache', 3, 'Disk'), ('FanoutCache', 5, 'Disk'), ('FanoutCache', 1, 'Disk'), ('FanoutCache', 11, 'Disk'), ('FanoutCache', 8, 'Disk'),
+    ('FanoutCache', 2, 'JSONDisk'), ('Cache', 1, 'Disk'), ('Cache', 1, 'JSONDisk'), ('Index', 1, 'Disk'),
+    ('FanoutCache.index', 3, 'Disk'), ('FanoutCache.cache', 5, 'Disk'), ('FanoutCache.deque', 3, 'Disk'), ('Deque', 1, 'Disk'),
+]
+
+
+def handle_open(d, container, shards, diskname, protocol):
+    """-> (handle, parent or None)"""
+    disk = getattr(diskcache, diskname)
+    kw = dict(disk=disk, eviction_policy='none')
+    if diskname == 'Disk':
+        kw['disk_pickle_protocol'] = protocol
+    if container == 'Cache':
+        return diskcache.Cache(d, **kw), None
+    if container == 'FanoutCache':
+        return diskcache.FanoutCache(d, shards=shards, **kw), None
+    if container == 'Index':
+        return diskcache.Index(d), None
+    if container == 'Deque':
+        return diskcache.Deque(directory=d), None
+    parent = diskcache.FanoutCache(d, shards=shards, **kw)
+    sub = container.split('.')[1]
+    return {'index': parent.index, 'cache': parent.cache, 'deque': parent.deque}[sub]('sub'), parent
+
+
+def handle_second(h, parent, d, container, shards, diskname, protocol, how):
+    """another handle on what `h` is a handle on -> (handle, [objects to close])"""
+    import copy
+    if how.startswith('pickle:'):
+        p = how.split(':')[1]
+        return pickle.loads(pickle.dumps(h, protocol=pickle.HIGHEST_PROTOCOL if p == 'highest' else int(p))), []
+    if how == 'pickle-twice':
+        mid = pickle.loads(pickle.dumps(h))
+        return pickle.loads(pickle.dumps(mid)), [mid]
+    if how == 'copy':
+        return copy.copy(h), []
+    if how == 'deepcopy':
+        return copy.deepcopy(h), []
+    if how == 'reopen':
+        h2, parent2 = handle_open(d, container, shards, diskname, protocol)
+        return h2, [parent2] if parent2 is not None else []
+    assert how == 'parent-pickle'
+    if parent is None:
+        return pickle.loads(pickle.dumps(pickle.loads(pickle.dumps(h)))), []
+    parent2 = pickle.loads(pickle.dumps(parent))
+    sub = container.split('.')[1]
+    return {'index': parent2.index, 'cache': parent2.cache, 'deque': parent2.deque}[sub]('sub'), [parent2]
+
+
+def _close(o):
+    try:
+        (o.cache if hasattr(o, 'cache') and not hasattr(o, 'close') else o).close()
+    except Exception:  # noqa
+        pass
+
+
+def _handle_value(h, k):
+    """what handle h answers for key k, as a list; None for a miss; anything else as it came"""
+    try:
+        got = h[k]
+    except KeyError:
+        return None
+    return list(got) if isinstance(got, (list, tuple)) else got
+
+
+def handle_keys(diskname, protocol):
+    keys = xproc_keys(protocol)
+    if diskname == 'JSONDisk':
+        keys = [k for k in keys if not isinstance(k, (bytes, tuple, frozenset))]
+    return keys
+
+
+def handle_case(scratch, container, shards, diskname, protocol, how, swap):
+    """One directory, two handles A and B (B obtained from A by `how`; swap: B writes first).  Every key of the alphabet stored through the
+    first handle is found through the second with its value, listed once, replaced -- not duplicated -- when the second handle stores under
+    it, and gone for both once either handle deletes it.  -> [(sig, desc)]"""
+    d = scratch('c02h')
+    problems = []
+    a, parent = handle_open(d, container, shards, diskname, protocol)
+    try:
+        b, extra = handle_second(a, parent, d, container, shards, diskname, protocol, how)
+    except (AssertionError, TypeError, AttributeError) as e:     # this container cannot be duplicated that way (copy.deepcopy of a FanoutCache): no second handle, no claim
+        for o in (a, parent):
+            if o is not None:
+                _close(o)
+        return [('<unobtainable>', '%s: %r' % (how, e))]
+    w, r = (b, a) if swap else (a, b)
+    wn, rn = ('the second handle', 'the original handle') if swap else ('the original handle', 'the second handle (%s)' % how)
+    label = '%s%s, %s' % (container, '' if container in ('Cache', 'Index', 'Deque') else ' with %d shards' % shards, diskname)
+    try:
+        if container.endswith('eque'):
+            # positions instead of keys: element i is element i through every handle
+            vals = [('first', i) for i in range(7)]
+            w.extend(vals)
+            if list(r) != vals or len(r) != len(vals):
+                problems.append(('second_handle_misses_element', '%s: %d elements appended through %s, %s lists %s' % (label, len(vals), wn, rn, short(list(r)))))
+            r[3] = ('second', 3)
+            r.append(('second', 7))
+            want = vals[:3] + [('second', 3)] + vals[4:] + [('second', 7)]
+            if list(w) != want:
+                problems.append(('second_handle_duplicates_element', '%s: element 3 replaced and one appended through %s; %s lists %s' % (label, rn, wn, short(list(w)))))
+            del r[0]
+            w.pop()
+            if list(r) != want[1:-1] or list(w) != want[1:-1]:
+                problems.append(('second_handle_delete_ineffective', '%s: first element deleted through %s, last popped through %s; they list %s and %s'
+                                 % (label, rn, wn, short(list(r)), short(list(w)))))
+            return problems
+        keys = handle_keys(diskname, protocol)
+        n = len(keys)
+        for i, k in enumerate(keys):
+            w[k] = ['first', i]
+        missing = []
+        for i, k in enumerate(keys):
+            if _handle_value(r, k) != ['first', i] or k not in r:
+                missing.append(k)
+        if missing:
+            k = missing[0]
+            problems.append(('second_handle_misses_key:%s' % type(k).__name__, '%s: %d of %d keys stored through %s are not found (or found with another value) '
+                             'through %s, e.g. %s' % (label, len(missing), n, wn, rn, short(k))))
+        listed = sorted(repr(k) for k in r)
+        if len(r) != n or listed != sorted(repr(k) for k in keys):
+            problems.append(('second_handle_listing', '%s: %d keys stored through %s; %s has len %d and lists %d keys' % (label, n, wn, rn, len(r), len(listed))))
+        for i, k in enumerate(keys):
+            r[k] = ['second', i]
+        stale = [k for i, k in enumerate(keys) if _handle_value(w, k) != ['second', i]]
+        nlisted = sum(1 for _ in w)
+        if len(w) != n or nlisted != n or stale:
+            problems.append(('second_handle_duplicates_key', '%s: every one of %d keys stored again through %s; %s has len %d, lists %d keys, and %d keys still '
+                             'answer with the first value%s' % (label, n, rn, wn, len(w), nlisted, len(stale), ', e.g. %s' % short(stale[0]) if stale else '')))
+        for k in keys[0::2]:
+            try:
+                del r[k]
+            except KeyError:
+                pass
+        survivors = [k for k in keys[0::2] if k in w]
+        if survivors or len(w) != n - len(keys[0::2]):
+            problems.append(('second_handle_delete_ineffective', '%s: %d keys deleted through %s; %d of them are still present through %s (len %d), e.g. %s'
+                             % (label, len(keys[0::2]), rn, len(survivors), wn, len(w), short(survivors[0]) if survivors else '-')))
+        for k in keys[1::2]:
+            try:
+                del w[k]
+            except KeyError:
+                pass
+        if len(r) != 0 or len(w) != 0 or any(True for _ in r):
+            problems.append(('second_handle_delete_ineffective', '%s: every key deleted through one handle or the other; len is %d through %s and %d through %s'
+                             % (label, len(w), wn, len(r), rn)))
+    finally:
+        for o in [a, b, parent] + extra:
+            if o is not None:
+                _close(o)
+    return problems
+
+
+def second_handles(ctx, res, stats, thorough):
+    seen = set()
+    n = 0
+    for ci, (container, shards, diskname) in enumerate(HANDLE_CONFIGS):
+        hows = HANDLE_HOWS if thorough else [HANDLE_HOWS[(ci + ctx.seed + j) % len(HANDLE_HOWS)] for j in (0, 3)]
+        for hi, how in enumerate(hows):
+            for swap in ((False, True) if thorough else (bool((ci + hi + ctx.seed) % 2),)):
+                protocol = (0, 2, pickle.HIGHEST_PROTOCOL)[(ci + hi) % 3]
+                case = {'check': 'second_handle', 'container': container, 'shards': shards, 'disk': diskname, 'protocol': protocol, 'how': how, 'swap': swap}
+                n += 1
+                res.count(['second-handle', container, shards, diskname, protocol, how, swap], nontrivial=True)
+                try:
+                    problems = handle_case(ctx.scratch, container, shards, diskname, protocol, how, swap)
+                except Exception as e:  # noqa -- an ordinary operation on in-domain keys through either handle must not raise
+                    problems = [('second_handle_op_raised:%s' % type(e).__name__, '%s (%d shards, %s), second handle by %s: storing / looking up / listing / deleting '
+                                 'the keys of the alphabet through the two handles raised %r' % (container, shards, diskname, how, e))]
+                for sig, desc in problems:
+                    if sig == '<unobtainable>':
+                        stats.setdefault('second_handle_unobtainable', {})['%s:%s' % (container, how)] = desc[:120]
+                        continue
+                    if sig not in seen:
+                        seen.add(sig)
+                        res.violations.append(fw.Violation(sig, desc, case))
+    stats['second_handle_cases'] = n
+
+
+# ---------------------------------------------------------------------------
 # JSONDisk and keys JSON cannot represent: such a key is rejected (TypeError: outside the key domain of that disk) or, if a
 # disk accepts it, it is a key like any other: its own entry, never the entry of the text that spells it
 
@@ -750,7 +937,11 @@ def run(ctx, big=False):
                 'Other interpreters: ~70 pairwise distinct keys of every type stored through FanoutCache / FanoutCache.index by a fresh interpreter and '
                 'looked up, then stored again, by fresh interpreters with other PYTHONHASHSEED: every key found, no entry added.  JSONDisk with keys '
                 'JSON cannot represent (bytes, frozenset, date, datetime, UUID, Decimal, Fraction, complex, range, Ellipsis): rejected with TypeError, '
-                'or a key of its own beside the text key str(key) / repr(key).')
+                'or a key of its own beside the text key str(key) / repr(key).  Second handles: the ~70 keys stored through one handle of '
+                'FanoutCache (1, 2, 3, 5, 8, 11 shards; Disk / JSONDisk), Cache, Index, and the index / cache / deque a FanoutCache hands out, and looked up, '
+                'listed, stored again and deleted through a second handle on the directory obtained by pickle round trip (protocols 0 / 2 / highest, twice), '
+                'copy, deepcopy, reopening, or from the pickled parent, in both directions: found, never duplicated, gone for both once deleted (Deque: '
+                'positions instead of keys).')
     stats = {'pairs': 0, 'same': 0}
     coqcases = []
     nan_reachable = nan_key_regression(res)      # first: decides whether NaN can be driven through the operation sweep
@@ -767,6 +958,9 @@ def run(ctx, big=False):
     concurrent_identity(ctx, res, stats)
     cross_process_identity(ctx, res, stats, not ctx.quick)
     json_unrepresentable(ctx, res, stats)
+    second_handles(ctx, res, stats, not ctx.quick)
+    res.extra['second_handle_cases'] = stats.get('second_handle_cases')
+    res.extra['second_handle_unobtainable'] = stats.get('second_handle_unobtainable')
     res.extra.update({'cross_process_configs': stats.get('cross_process_configs'), 'cross_process_keys': stats.get('cross_process_keys'),
                       'json_foreign_keys_rejected': stats.get('json_foreign_rejected'), 'json_foreign_keys_stored': stats.get('json_foreign_stored')})
     res.extra.update({'pairs': stats['pairs'], 'pairs_expected_same': stats['same'], 'exhaustive': thorough,
@@ -800,6 +994,15 @@ def replay(payload):
         for sig, desc, _c in problems:
             print(sig, desc)
         return not problems
+    if case.get('check') == 'second_handle':
+        try:
+            problems = handle_case(lambda name: tempfile.mkdtemp(prefix=name + '-', dir=d), case['container'], case['shards'], case['disk'],
+                                   case['protocol'], case['how'], case['swap'])
+            for sig, desc in problems:
+                print(sig, desc)
+            return not [p for p in problems if p[0] != '<unobtainable>']
+        finally:
+            shutil.rmtree(d, ignore_errors=True)
     if case.get('check') == 'json_foreign_key':
         try:
             k = pickle.loads(bytes.fromhex(case['key_pickle_hex']))
